@@ -29,7 +29,9 @@ def run(rep, tier, seed, rng):
                 ndis += 1
                 rep.violation("a source is compiled by a different rule than the nearest matching one (C03_nearest_rule)",
                               gen_common.replay_data(r, implementation=ci[:6], specification=cm[:6]), found_input=same)
-            elif sorted(b["out"] for b in r["impl"]["builds"]) != sorted(b["out"] for b in r["model"]["builds"]) and same:
+            elif sorted({b["out"] for b in r["impl"]["builds"]}) != sorted({b["out"] for b in r["model"]["builds"]}) and same:
+                # (sets: an app name declared for two contexts that both reach a builder gives two builds that the
+                #  info file, a map keyed by name, shows once)
                 ndis += 1
                 rep.violation("app output file differs from ${outfile} / POST_LINK (C03_outfile)", gen_common.replay_data(r), found_input=True)
     rep.cov.update(evaluations=len(cases), distinct_nontrivial=len(distinct),
